@@ -89,6 +89,9 @@ def float_history(spec):
             ids[k] = len(ids) + 1
         return ids[k]
 
+    # one history in four lives on a tiny scale (steps and gradient differences ~1e-9: s.y far below the machine
+    # epsilon in absolute terms while the relative curvature test is unaffected)
+    sc = float(10.0 ** rng.uniform(-10, -7)) if spec.get("tiny") else 1.0
     x = rng.normal(0, 1, n)
     X, G = deque([x.copy()]), deque([np.asarray(p.grad(x), float)])
     mats = LBFGSB_MATRICES(n)
@@ -100,7 +103,7 @@ def float_history(spec):
         elif r < 0.2 and len(X) > 1:
             xn = X[-2].copy()                       # going back
         else:
-            xn = X[-1] + rng.normal(0, 10 ** rng.uniform(-3, 0.5), n)
+            xn = X[-1] + sc * rng.normal(0, 10 ** rng.uniform(-3, 0.5), n)
         gn = np.asarray(p.grad(xn), float)
         before = [pid(a) for a in X]
         yk = gn - G[-1]
@@ -135,7 +138,10 @@ def run(ctx):
     rng = np.random.default_rng([ctx.seed, 10])
     specs = [{"family": ["qp", "qp4", "qpcos", "osc", "rosenbrock"][int(rng.integers(5))],
               "n": int(rng.integers(2, 13)), "maxcor": int(rng.integers(1, 11)), "len": 40,
-              "pseed": int(rng.integers(1 << 30))} for _ in range(ctx.pick(300, 3000))]
+              "pseed": int(rng.integers(1 << 30)), "tiny": bool(k % 4 == 3)} for k in range(ctx.pick(300, 3000))]
+    for s in specs:
+        if s["tiny"]:
+            s["family"] = "qp"      # linear gradient: y = A s keeps its relative accuracy on the tiny scale
     with mp.get_context("fork").Pool(NCPU) as pool:
         res = pool.map(float_history, specs, chunksize=8)
     viols = validate(ctx, [r["trace"] for r in res], module="MemoryTrace", name="memory-float")
